@@ -15,7 +15,7 @@ META = dict(
                 'from depth-2 trees to all trees is the operator-precedence structure of Python\'s expression grammar (parenthesisation is decided per '
                 'parent/child pair); thorough tier additionally closes depth 3 for the operator core',
     trusted_base=['CPython ast.parse / ast.dump as the oracle for "same expression"', 'Python expression grammar: need for parentheses is local to (parent, slot, child)'],
-    assumptions=['external-node detection (PreTranslator), frame evaluation (extract_vars) and the decompiler are NOT covered',
+    assumptions=['external-node detection (PreTranslator) and frame evaluation (extract_vars) are covered only by the BOUNDED scenarios of contracts/c04_frames.py; the decompiler is C03',
                  'ast2src raising an exception counts as rejection (allowed by the property), reported in evidence'],
 )
 N = lambda s: ast.Name(s, ast.Load())
@@ -220,6 +220,8 @@ def finish(rep, tier):
     rep.extra['roundtrip_verdicts'] = dict(cur_stats)
 
 
+from contracts import c04_frames as FR
+
 CONTRACTS = [
     Contract('ast2src.productions', ['pony.orm.asttranslation:ast2src', 'pony.orm.asttranslation:PythonTranslator'], _single_configs, _single_case,
              [('regenerated_exactly', _single_ok)], doc='each production of the regenerated grammar alone'),
@@ -227,4 +229,6 @@ CONTRACTS = [
              [('meaning_preserved', _preserved)], doc='all (parent production, slot, child production) triples: parse(ast2src(t)) == t or rejected'),
     Contract('ast2src.depth3', ['pony.orm.asttranslation:ast2src'], _depth3_configs, _depth3_case, [('meaning_preserved', _preserved)],
              doc='thorough tier: all depth-3 chains over the operator core (16 productions)'),
+    Contract('outer_scope_values', ['pony.orm.asttranslation:create_extractors', 'pony.orm.asttranslation:PreTranslator', 'pony.orm.core:extract_vars', 'pony.orm.core:Query.__init__',
+                                    'pony.orm.core:Query._get_translator'], FR.configs, FR.case, [('rows_are_those_of_evaluating_the_outer_expression_in_python', FR.spec)], level='bounded', bound=FR.BOUND),
 ]
